@@ -54,13 +54,15 @@ Definition sig_admissible (kv sv : N) (hashed : list sub) : bool :=
 Record opsf := { o_typ : N; o_hash : N; o_alg : N; o_issuer : list N; o_salt : list N }.
 Definition list_eqb (a b : list N) : bool :=
   Nat.eqb (length a) (length b) && forallb (fun p => fst p =? snd p) (combine a b).
+(* the issuer named in the header is a hint for finding the key; it has no counterpart that a
+   signature must carry (issuer subpackets are optional), so it does not take part *)
 Definition ops_matches (a b : opsf) : bool :=
   (o_typ a =? o_typ b) && (o_hash a =? o_hash b) && (o_alg a =? o_alg b) &&
-  list_eqb (o_issuer a) (o_issuer b) && list_eqb (o_salt a) (o_salt b).
+  list_eqb (o_salt a) (o_salt b).
 
 (* ---- 10.1: certificates ---- *)
 Definition subkey_version_ok (pv sv : N) : bool :=
-  if pv =? 6 then sv =? 6 else if pv <? 4 then false else negb (sv =? 6) && (4 <=? sv).
+  if pv =? 6 then sv =? 6 else if pv <? 4 then false else true.
 
 (* a subkey binding: signing-capable subkeys need a valid embedded primary-key binding
    signature; ONE rule for public and secret certificates *)
